@@ -10,10 +10,14 @@ import (
 	"bufio"
 	"encoding/json"
 	"fmt"
+	"log"
 	"os"
+	"path/filepath"
 
 	"golang.org/x/telemetry/cmd/gotelemetry/internal/view"
 	"golang.org/x/telemetry/internal/config"
+	"golang.org/x/telemetry/internal/configstore"
+	"golang.org/x/telemetry/internal/proxy"
 	"golang.org/x/telemetry/internal/telemetry"
 )
 
@@ -21,15 +25,80 @@ type request struct {
 	Cfg  telemetry.UploadConfig
 	Dir  string
 	What string
+	// What == "pages": one viewer Server answers the requests in order; the
+	// telemetry directory is Dir; the config proxy (file tree written here
+	// from Configs: version -> config) is reachable or not per request
+	Configs  map[string]telemetry.UploadConfig
+	Requests []pageRequest
+}
+
+type pageRequest struct {
+	Version string
+	ProxyUp bool
 }
 
 type answer struct {
 	Files   []view.VerifFileView
 	Reports []view.VerifReportView
+	Pages   []view.VerifPage
 	Err     string
 }
 
+// pages: see request.  The go command run by configstore.Download takes its
+// proxy, module cache and checksum settings from this process's environment.
+func pages(req request) ([]view.VerifPage, error) {
+	work, err := os.MkdirTemp("", "vh_view_pages")
+	if err != nil {
+		return nil, err
+	}
+	defer func() {
+		filepath.Walk(work, func(p string, info os.FileInfo, err error) error {
+			if err == nil && info.IsDir() {
+				os.Chmod(p, 0777)
+			}
+			return nil
+		})
+		os.RemoveAll(work)
+	}()
+	files := map[string][]byte{}
+	for version, cfg := range req.Configs {
+		c := cfg
+		encoded, err := json.Marshal(&c)
+		if err != nil {
+			return nil, err
+		}
+		dirPath := fmt.Sprintf("%v@%v/", configstore.ModulePath, version)
+		files[dirPath+"go.mod"] = []byte("module " + configstore.ModulePath + "\n\ngo 1.20\n")
+		files[dirPath+"config.json"] = encoded
+	}
+	proxyURI, err := proxy.WriteProxy(filepath.Join(work, "proxy"), files)
+	if err != nil {
+		return nil, err
+	}
+	os.Setenv("GONOSUMDB", "*")
+	os.Setenv("GONOSUMCHECK", "1")
+	os.Setenv("GOFLAGS", "")
+	os.Setenv("GOSUMDB", "off")
+	os.Setenv("GOMODCACHE", filepath.Join(work, "modcache"))
+	telemetry.Default = telemetry.NewDir(req.Dir)
+	serve, err := view.VerifIndexServer()
+	if err != nil {
+		return nil, err
+	}
+	var res []view.VerifPage
+	for _, r := range req.Requests {
+		if r.ProxyUp {
+			os.Setenv("GOPROXY", proxyURI)
+		} else {
+			os.Setenv("GOPROXY", "file://"+filepath.Join(work, "no-such-proxy"))
+		}
+		res = append(res, serve(r.Version))
+	}
+	return res, nil
+}
+
 func main() {
+	log.SetOutput(os.Stderr)
 	in := bufio.NewReaderSize(os.Stdin, 1<<20)
 	out := bufio.NewWriter(os.Stdout)
 	dec := json.NewDecoder(in)
@@ -47,6 +116,8 @@ func main() {
 			ans.Files, err = view.VerifFiles(req.Dir, cfg)
 		case "reports":
 			ans.Reports, err = view.VerifReports(req.Dir, cfg)
+		case "pages":
+			ans.Pages, err = pages(req)
 		default:
 			err = fmt.Errorf("unknown request %q", req.What)
 		}
